@@ -46,7 +46,8 @@ CONSTANTS
   OpSet,         \* enabled operation kinds
   ForkFdis,      \* BOOLEAN: fork files may carry a file/disable comment
   TombRename,    \* BOOLEAN: a file may be renamed onto a path deleted earlier on the branch (no verdict then, binding only)
-  MatchMode      \* "greedy" (matchEntries as pinned) | "twopass" (fixes/f5-matchentries.patch) | "any" (JUDGE: either)
+  MatchMode      \* "greedy" (matchEntries as originally pinned) | "twopass" (pint 5626418, fixes/f5-matchentries.patch);
+                 \* the driver probes the tree under test and picks the variant; JUDGE evaluates both
 
 \* file paths in lexical order (the order filepath.Glob/WalkDir yields them)
 PathOrder == SubSeq(<<"a.yml", "b.yml", "c.yml", "drafts/d.yml">>, 1, NPaths)
@@ -289,7 +290,7 @@ Inv_C03 ==
   (phase = "branch" /\ ~ambig) =>
     LET ms == ImplMarkers(tree, changes, MatchMode) IN \A pk \in HeadRules : RuleOK(ms, pk[1], pk[2])
 
-\* The known defect F5 (known_findings.json, C03): the greedy matcher lets an earlier HEAD rule without an identical
+\* The defect F5 (known_findings.json, C03; fixed in pint 5626418): the greedy matcher lets an earlier HEAD rule without an identical
 \* fork-point version take, by name, the version of a later untouched rule of the same kind and name, which is then
 \* reported as added. Exactly: the rule must be noop, the greedy transcription says added, identical-first says noop.
 KnownF5(p, k) ==
